@@ -171,13 +171,21 @@ func sinksMain(args []string) {
 			cs, _ := channel.NewChannelSink(ch, 400*time.Millisecond)
 			c2, cancel := context.WithCancel(ctx)
 			e := &eventlogger.Event{Type: "x"}
-			mode := p.intn(2)
+			mode := p.intn(3) // 0: cancel during the wait; 1: drain during the wait; 2: drain, then cancel at once
+			recvd := make(chan *eventlogger.Event, 1)
 			go func() {
 				time.Sleep(4 * time.Millisecond)
-				if mode == 0 {
+				switch mode {
+				case 0:
 					cancel()
-				} else {
-					<-ch
+				case 1:
+					recvd <- <-ch
+				default:
+					// the hand-over happens first; a context that ends right after it must not turn the
+					// success into an error ("never both")
+					g := <-ch
+					cancel()
+					recvd <- g
 				}
 			}()
 			t0 := time.Now()
@@ -192,6 +200,22 @@ func sinksMain(args []string) {
 					obs = "timeout"
 				}
 			}
+			var handed *eventlogger.Event
+			if mode != 0 {
+				select {
+				case handed = <-recvd:
+				case <-time.After(500 * time.Millisecond):
+				}
+			}
+			if handed != nil && err != nil {
+				oracle("C13 ChannelSink: the event WAS handed to the channel, yet Process returned the error %q (never both)", err)
+			}
+			if handed == nil && err == nil {
+				oracle("C13 ChannelSink: Process reported success but nothing was handed to the channel (never neither)")
+			}
+			if handed != nil && handed != e {
+				oracle("C13 ChannelSink handed a different event to the channel")
+			}
 			if mode == 0 && obs != "ctx" {
 				oracle("C13 ChannelSink: the context was cancelled 4ms into a blocked Process (timeout 400ms) but it returned %q after %v: never blocking longer than the shorter of the two", obs, dt)
 			}
@@ -201,7 +225,13 @@ func sinksMain(args []string) {
 			if dt > 300*time.Millisecond {
 				oracle("C13 ChannelSink blocked %v although an arm became ready after 4ms", dt)
 			}
-			o.emit(fmt.Sprintf("chan %s %s false %s", bstr(mode == 1), bstr(mode == 0), obs), "ok")
+			if mode == 2 {
+				st.hit("chan-handover-then-cancel:" + obs)
+				if handed != nil {
+					obs = "sent" // what the model is asked about: the receiver was ready, the context was not done yet
+				}
+			}
+			o.emit(fmt.Sprintf("chan %s %s false %s", bstr(mode != 0), bstr(mode == 0), obs), "ok")
 			st.hit("chan-during-wait:" + obs)
 		case 7: // ChannelSink
 			cr, cd := p.chance(1, 2), p.chance(1, 2)
